@@ -270,6 +270,14 @@ fn line() -> BoxedStrategy<Line> {
         "///# sourceMappingURL=threeslash.map",
         "//! sourceMappingURL=bang.map",
         "\u{feff}//# sourceMappingURL=bom.map",
+        // characters that break lines elsewhere but not here: the comment does not begin the line
+        "x();\u{2028}//# sourceMappingURL=after-ls.map",
+        "x();\u{2029}//@ sourceMappingURL=after-ps.map",
+        "x();\u{85}//# sourceMappingURL=after-nel.map",
+        "x();\u{b}//# sourceMappingURL=after-vt.map",
+        "x();\u{c}//# sourceMappingURL=after-ff.map",
+        "\u{a0}//# sourceMappingURL=after-nbsp.map",
+        "//＃ sourceMappingURL=fullwidth-hash.map",
     ])
     .prop_map(|s| Line::LookAlike(s.to_string()));
     let comment = (any::<bool>(), pad(), url(), pad()).prop_map(|(legacy, pad_l, url, pad_r)| Line::Comment { legacy, pad_l, url, pad_r });
